@@ -102,11 +102,12 @@ CHECKS = {
        "candidate keep the frame), C05_loaded / C05_loaded_char (a loaded marker file is framed by the marker lines; char mode also "
        "protects the byte before the DDEND line), and the end-to-end corollaries C05_minimize/pairs/collapse_loaded: Coq theorems for "
        "every verdict function, input and splitter. replace-properties-by-globals: C05_replace_properties / _loaded / _candidate_shape over its "
-       "CONCRETE pass (ReplaceProps.v) - no assumption left. replace-arguments and the experimental move are covered by C05_generic under "
-       "the monitored assumption that their candidates never change before/after (their real candidates are replayed through the model "
+       "CONCRETE pass (ReplaceProps.v), and C05_move / C05_move_loaded / C05_move_candidate_is_permutation over a CONCRETE model of the "
+       "experimental move (PairsMove.v) - no assumption left for either. Only replace-arguments is covered by C05_generic under the "
+       "monitored assumption that its candidates never change before/after (its real candidates are replayed through the model "
        "driver). Tie: "
        "trace correspondence over marker files x 7 strategies (+move) x 5 splitters with a prefix/suffix oracle.",
-  note=TB + "Partial for replace-arguments / move: 'candidates keep before/after' is monitored on the implementation, not proved.",
+  note=TB + "Partial for replace-arguments only: 'candidates keep before/after' is monitored on the implementation, not proved.",
   tech="Coq proof (frame invariant of the driver loop + per-strategy frame preservation) + trace correspondence",
   ref="4/C05"),
  "C06": dict(
